@@ -38,6 +38,11 @@ func transparentCall(c *ssa.Call) bool {
 	if strings.HasPrefix(m, "Get") && len(callArgs(c)) == 1 {
 		return true // getters
 	}
+	switch name {
+	case "(*google.golang.org/protobuf/types/known/timestamppb.Timestamp).AsTime", "(time.Time).Unix", "(time.Time).UTC", "(time.Duration).Seconds",
+		"google.golang.org/protobuf/types/known/timestamppb.New", "time.Unix":
+		return true // pure value conversions
+	}
 	return false
 }
 
